@@ -144,7 +144,15 @@ def run(prog, rep, tier, repo):
         kk = ('arg', 2, f.names.get(2))
         ok = len(rets) == 1 and tag(rets[0]) == 'call' and rets[0][1] == U + 'matmul' and rets[0][2][:4] == (x, x, kk, kk) and \
             rets[0][2][4] == ('const', 'bool', True) and rets[0][2][5] == ('const', 'bool', False)
-        (rep.ok if ok else rep.viol)('orient', key, 'xtx(x, k) = matmul(x, x, k, k, true, false) = X^T.X' if ok else 'xtx is %s' % [show(r) for r in rets], site_of(f.body))
+        # refuted only in the read form: one matmul call with literal transposition flags
+        read = len(rets) == 1 and tag(rets[0]) == 'call' and rets[0][1] == U + 'matmul' and len(rets[0][2]) == 6 and \
+            all(tag(z) == 'const' for z in rets[0][2][4:6])
+        if ok:
+            rep.ok('orient', key, 'xtx(x, k) = matmul(x, x, k, k, true, false) = X^T.X')
+        elif read:
+            rep.viol('orient', key, 'xtx is %s' % [show(r) for r in rets], site_of(f.body))
+        else:
+            rep.undecided('orient', key, 'xtx is not a single matmul call with literal flags (%s): not read' % [show(r)[:80] for r in rets], site_of(f.body), proof=False)
 
     # ------------------------------------------------------------------ D3 Dot methods
     n = {'mm': 0, 'mv': 0, 'vm': 0, 'vv': 0}
@@ -252,7 +260,13 @@ def run(prog, rep, tier, repo):
         else:
             n['vv'] += 1
             ok = len(rets) == 1 and tag(rets[0]) == 'call' and rets[0][1] == U + 'dot' and _is_vdata_of(rets[0][2][0], me_) and _is_vdata_of(rets[0][2][1], other)
-            (rep.ok if ok else rep.viol)('dot', key, '%s: dot(self.data, other.data)' % name if ok else '%s is %s' % (name, [show(r) for r in rets]), site_of(b))
+            read = len(rets) == 1 and tag(rets[0]) == 'call' and rets[0][1] == U + 'dot' and len(rets[0][2]) == 2
+            if ok:
+                rep.ok('dot', key, '%s: dot(self.data, other.data)' % name)
+            elif read:
+                rep.viol('dot', key, '%s is %s' % (name, [show(r) for r in rets]), site_of(b))
+            else:
+                rep.undecided('dot', key, '%s is not a single call of utils::dot (%s): not read' % (name, [show(r)[:80] for r in rets]), site_of(b), proof=False)
     rep.floor('dot', 64, '16 Dot impls x 4 methods')
     _dot_shapes(prog, rep)
     rep.info('dot', 'dot:counts', 'matrix.matrix %(mm)d, matrix.vector %(mv)d, vector.matrix %(vm)d, vector.vector %(vv)d' % n)
